@@ -499,6 +499,9 @@ func (m *otMap) apply(proxy otProxy, plan *otShapePlan, font *Font, buffer *Buff
 		for ; i < stage.lastLookup; i++ {
 			lookup := m.lookups[tableIndex][i]
 			lookupIndex := lookup.index
+			if int(lookupIndex) >= len(proxy.accels) { // invalid font: a feature references a missing lookup
+				continue
+			}
 
 			if debugMode {
 				fmt.Printf("\t\tLookup %d start\n", lookupIndex)
